@@ -560,7 +560,7 @@ def create(acc: Acc, kind, text, cname, expect_valid=True, spec=None, delim=""):
 def pattern_list(kind, tier):
     k = 2 if tier == "quick" else 3
     reduce_from = 3
-    if tier == "thorough" and kind in ("offset", "annual", "time", "date"):
+    if tier == "thorough" and kind in ("offset", "annual", "date"):
         reduce_from = 4
     if tier == "quick" and kind in ("datetime", "instant"):
         reduce_from = 2          # two-field date-time patterns: shortest/longest width only (all five delimiters kept)
@@ -866,8 +866,10 @@ def run(ctx):
             for lo in range(0, n, size):
                 tasks.append((kind, tier, lo, min(n, lo + size), tuple((r, key_of[r]) for r in reps), rot_pick, True))
         ctx.note("patterns_per_type", npat)
+        if tier == "quick":
+            ctx.cap("two-field datetime / instant patterns use only the shortest/longest width variant of each field (all five delimiter styles kept)")
         if tier == "thorough":
-            ctx.cap("custom patterns of >= 3 fields use only the shortest/longest width variants and the quoted/separator delimiters for duration, datetime, instant")
+            ctx.cap("custom patterns of >= 3 fields use only the shortest/longest width variants and the quoted/separator delimiters for time, duration, datetime, instant")
         ctx.cap("template configurations (with_template_value / with_calendar) are explored in the invariant culture only")
         ctx.cap("patterns without culture-dependent parts run in the invariant culture plus %d seed-rotated cultures, not in every class representative" % len(rot_pick))
         # interleave kinds so that the expensive ones do not all end up at the tail
